@@ -11,7 +11,7 @@ pub static DEF: CheckDef = CheckDef {
     id: "C14",
     run,
     replay,
-    rule: "(a) exhaustive walk: for all 16 STAT enable masks x LYC in {0, 1, 77, 143, 144, 153, 200}, two whole frames (plus the power-on vertical blank) are delivered 4 clocks at a time, and after every batch LY, the STAT mode and coincidence bits, the VBlank request and the STAT request of that batch are compared with the closed-form schedule (models::lcd): this pins every event to its exact 4-clock slot. (b) proptest histories of up to 12 operations over {write STAT enable mask, write LYC, advance(n)} with n a multiple of 4 from 4 to 200000 clocks (up to ~6 frames in total, biased to line, mode and frame boundaries), on the VideoState device and through the bus (0xFF41/0xFF44/0xFF45, IF bits 0 and 1); same observations after every operation. Metamorphic: every advance is also delivered split at generated cut points to a second instance, which must observe exactly the same. Non-trivial = history whose advances cross 143->144, 153->0, an enabled mode entry or an LY=LYC hit; distinct by hash of the history. Program layer (the glue between the CPU loop and the device): generated structured programs (C04's generator with the device fragments weighted up: STAT/LYC writes, EI;HALT woken by a STAT source, OAM DMA running in the background) run on a whole core in three stepping modes (interpreter instruction-stepped, interpreter block-stepped, jit block-stepped); the reference machine says which bus writes each step made, how many clocks it is worth and which request was acknowledged, and the independent model fed with exactly that must agree with LY, STAT bits 0-2, the STAT enable bits and IF bits 0 and 1 (a batch with a cause must request, a batch with none must not; a STAT/LYC write while LY = LYC leaves bit 1 open; the LCD is not judged after a program clears LCDC bit 7) after every step.",
+    rule: "(a) exhaustive walk: for all 16 STAT enable masks x LYC in {0, 1, 77, 143, 144, 153, 200}, two whole frames (plus the power-on vertical blank) are delivered 4 clocks at a time, and after every batch LY, the STAT mode and coincidence bits, the VBlank request and the STAT request of that batch are compared with the closed-form schedule (models::lcd): this pins every event to its exact 4-clock slot. (b) proptest histories of up to 12 operations over {write STAT enable mask, write LYC, advance(n)} with n a multiple of 4 from 4 to 2000000 clocks (up to 28 frames in one batch, biased to whole numbers of frames and to multiples of 262144; biased to line, mode and frame boundaries), on the VideoState device and through the bus (0xFF41/0xFF44/0xFF45, IF bits 0 and 1); same observations after every operation. Metamorphic: every advance is also delivered split at generated cut points to a second instance, which must observe exactly the same. Non-trivial = history whose advances cross 143->144, 153->0, an enabled mode entry or an LY=LYC hit; distinct by hash of the history. Program layer (the glue between the CPU loop and the device): generated structured programs (C04's generator with the device fragments weighted up: STAT/LYC writes, EI;HALT woken by a STAT source, OAM DMA running in the background) run on a whole core in three stepping modes (interpreter instruction-stepped, interpreter block-stepped, jit block-stepped); the reference machine says which bus writes each step made, how many clocks it is worth and which request was acknowledged, and the independent model fed with exactly that must agree with LY, STAT bits 0-2, the STAT enable bits and IF bits 0 and 1 (a batch with a cause must request, a batch with none must not; a STAT/LYC write while LY = LYC leaves bit 1 open; the LCD is not judged after a program clears LCDC bit 7) after every step.",
     assumptions: &[
         "models::lcd (154 lines x 456 clocks, 80/188/188 split as the property states, power-on at the first clock of line 144)",
         "a STAT request caused by writing STAT or LYC while LY = LYC is neither required nor forbidden; STAT-line blocking between sources is not modelled (a batch containing at least one cause must request, a batch with none must not)",
@@ -274,6 +274,9 @@ fn op_strategy() -> impl Strategy<Value = Op> {
         2 => 1u32..1000,
         2 => 1u32..70224,
         1 => 1u32..200000,
+        1 => 200_000u32..2_000_000,
+        1 => (1u32..=24, 0u32..9).prop_map(|(k, d)| k * 70224 + 4 * d - 16),
+        1 => (1u32..=7, 0u32..9).prop_map(|(k, d)| k * 262144 + 4 * d - 16),
     ]
     .prop_map(|n| (n / 4).max(1) * 4);
     let cuts = prop::collection::vec(any::<u16>(), 0..5);
